@@ -144,8 +144,7 @@ class StateMachine(metaclass=StateMachineMetaclass):
 
         self._listeners: Dict[Any, Any] = {}
 
-        self._register_callbacks([])
-        self.add_listener(*listeners.keys())
+        self._register_callbacks(list(listeners.keys()))
         self._engine = self._get_engine(rtc)
         self._engine.start()
 
